@@ -6,7 +6,7 @@
      o = <<queued requests, queued responses, queued events, bytes in flight
            client->server, bytes in flight server->client, deferred notifications,
            POLLOUT registered, poll() on qb_ipcc_fd_get(), poll() on the server's
-           descriptor, flow-control word>>
+           descriptor, flow-control word, statistics: requests, responses, events>>
    The projection binds the specification's nondeterministic choices and must
    agree with the specification's state after every step.                   *)
 EXTENDS IpcMsg, Json, IOUtils
@@ -17,12 +17,15 @@ TraceInit == Fresh(TRUE, 0) /\ l = 1
 B(x) == IF x THEN 1 ELSE 0
 (* the projection is compared with the state AFTER the step (primed variables) *)
 ObsOK(o) ==
-  /\ Len(o) = 10
+  /\ Len(o) = 13
   /\ o[1] = Len(req') /\ o[2] = Len(resp') /\ o[3] = Len(evt')
   /\ o[4] = c2s' /\ o[5] = s2c' /\ o[6] = outstanding' /\ o[7] = B(pollOut')
   /\ o[8] = B(IF shm' THEN s2c' > 0 ELSE evt' # <<>>)      \* = ClientReadable'
   /\ o[9] = B(IF shm' THEN c2s' > 0 ELSE req' # <<>>)      \* = ServerReadable'
   /\ o[10] = fc'
+  \* the connection's statistics count exactly what the histories hold: requests handed to msg_process,
+  \* responses and events accepted by the send calls
+  /\ o[11] = Len(dlvReq') /\ o[12] = Len(accResp') /\ o[13] = Len(accEvt')
 
 Fresh2(s, mm) ==
   /\ shm' = s /\ maxMsg' = mm
